@@ -1,6 +1,6 @@
 CONFIG = {
     "level": "proof",
-    "level_text": "PARTIAL. Lean theorems (kernel-checked, no sorry/axioms): (A) on the abstract NodeDB contract for every history: a finalized root keeps its contents through every commit / finalize (whatever is discarded) / prune of another version, prune removes exactly the earliest finalized non-last version, nothing is ever reported under a root that was not committed under it; (B) on the bookkeeping model of the badger backend (MVCC store, rootsMeta, updatedNodes, maybe-lone/not-lone, lone-root pruning): every operation writes only at its own version's timestamp, so later commits/finalizations never change what an earlier version reads; the exact effect of Finalize on the roots of its version (readable afterwards iff readable before and disjoint from maybeLone\\notLone); prune_exact; and machine-checked COUNTEREXAMPLES showing that the unconditional readable_inv is false for the model (Finalize destroys the root it finalizes; Prune of an older version destroys a retained root; a lone empty root blocks pruning); (C) the ABCI pruner arithmetic (keeps the last N, respects vetoes, lastRetained only advances past what was pruned). The real badger and pathbadger backends are tied on every run by dbdrv: generated version histories on real databases, every observer and a full read-back of every claimed root after every operation, against the contract (checker with witness), against the badger bookkeeping model (exact oracle: it must predict every result, every reported root and exactly which roots read back) and against each other.",
+    "level_text": "PARTIAL. Lean theorems (kernel-checked, no sorry/axioms): (A) on the abstract NodeDB contract for every history: a finalized root keeps its contents through every commit / finalize (whatever is discarded) / prune of another version, prune removes exactly the earliest finalized non-last version, nothing is ever reported under a root that was not committed under it; (B) on the bookkeeping model of the badger backend (MVCC store, rootsMeta, updatedNodes, maybe-lone/not-lone, lone-root pruning): every operation writes only at its own version's timestamp, so later commits/finalizations never change what an earlier version reads; the exact effect of Finalize on the roots of its version (readable afterwards iff readable before and disjoint from maybeLone\\notLone); prune_exact; and machine-checked COUNTEREXAMPLES showing that the unconditional readable_inv is false for the model (Finalize destroys the root it finalizes; Prune of an older version destroys a retained root); the repaired behaviours are kept as positive regression theorems (a finalized lone empty root no longer blocks pruning); (C) the ABCI pruner arithmetic (keeps the last N, respects vetoes, lastRetained only advances past what was pruned). The real badger and pathbadger backends are tied on every run by dbdrv: generated version histories on real databases, every observer and a full read-back of every claimed root after every operation, against the contract (checker with witness), against the badger bookkeeping model (exact oracle: it must predict every result, every reported root and exactly which roots read back) and against each other.",
     "technique": "Lean 4 proof over contract + backend bookkeeping model; exact-oracle / witness-checking correspondence with the real badger and pathbadger NodeDBs",
     "models": ["nodedb"],
     "lean_sources": ["OasisModel/NodeDB", "OasisModel/Proto.lean"],
